@@ -11,11 +11,15 @@ DESCRIPTION = {
              "for 126/127 also a non-minimal and a >=2^63 completion; oversized/compressed payloads are delivered header-only) and followed by a valid text frame. "
              "Quick tier enumerates all 65536 values for the contexts selected by the seed and a 1/16 stratified sample for the others; thorough all 16 contexts. "
              "(b) Hypothesis frame sequences from a grammar (1-5 fragments, control frames inside fragmented messages, multi-byte text straddling fragments, "
-             "close frames) with at most one violation from the catalogue followed by more valid frames, each delivered under four read schedules (one read, "
+             "close frames) with at most one violation from the catalogue - including a generated bad-text family: 18 RFC 3629 malformations (truncated 2/3/4-octet sequences, "
+             "lone/bad continuation, overlong, surrogates, >U+10FFFF, F5..FF) after a valid prefix of drawn length, cut into fragments at drawn points, at the bad octet -4..0, with empty "
+             "fragments and an empty final fragment, optionally a ping before the final fragment - followed by more valid frames, each delivered under four read schedules (one read, "
              "byte-wise, drawn splits, header-boundary splits).  Oracle: an independent receiver model that is given the frame list (not the bytes) yields "
              "the expected events for the well-formed prefix and the verdict; checked: callbacks == events, one pong per ping with equal payload, on violation "
              "exactly one close frame 1002/1007 (failByDrop off) or abort + onClose(False,1006) (on), nothing delivered after the violation, all schedules "
-             "agree.  Non-trivial = stream with a violation or >=3 frames with a control frame inside a fragmented message; header values count once per context."),
+             "agree.  Non-trivial = stream with a violation or >=3 frames with a control frame inside a fragmented message; header values count once per context.  "
+             "Thorough tier adds an atheris (libFuzzer) target: raw octets are walked by an independent header walker into the same reference receiver (complete frames up to the verdict, plus "
+             "the bare header of a frame whose header alone is a violation), fed in one read and byte-wise, and judged by the same oracle."),
     "assumptions": [
         "close codes 1012-1014 (registered after the RFC) are not generated; corrupt compressed payloads are outside the statement",
         "a valid peer close frame ends the judged stream (close handling is C05)",
@@ -57,6 +61,9 @@ def plan(tier, seed):
         for i, fw in enumerate(("twisted", "asyncio")):
             for sh in range(8):
                 jobs.append({"func": "sequences", "fw": fw, "nvx": str(sh % 2), "name": "seq/%s/%d" % (fw, sh), "args": {"seed": seed * 1000 + i * 10 + sh, "n": 1500}})
+            for sh in range(2):
+                jobs.append({"func": "fuzz", "fw": fw, "nvx": str(sh % 2), "name": "fuzz/stream/%s/%d" % (fw, sh), "args": {"target": "stream", "runs": 20000, "seed": seed * 1000 + i * 10 + 500 + sh},
+                             "timeout": 3000})
     return jobs
 
 
@@ -561,6 +568,9 @@ def replay(col, case):
     c = case.get("case", case)
     if c.get("check") == "closecode":
         close_codes_one(col, c)
+    elif c.get("check") == "fuzz-stream":
+        fuzz_stream_one(col, bytes([(1 if c["server"] else 0) | (2 if c["fbd"] else 0) | (4 if c["schedule"] == "bytes" else 0)]) + c["stream"])
+        return
     elif c.get("check") == "hdr":
         # re-run the single header value through a one-value table
         ctx = c["ctx"]
@@ -572,3 +582,102 @@ def replay(col, case):
         c.pop("schedule", None)
         check_sequence(c)
     col.case()
+
+
+# ---------------------------------------------------------------- coverage-guided second opinion (atheris, thorough tier)
+
+def walk_raw(raw, model):
+    """independent header walker over raw octets: feeds the reference receiver frame by frame and returns how many octets of `raw` form
+    the judged prefix: all complete frames up to the verdict/close, plus the bare header of a following frame whose header alone is a violation.
+    Incomplete trailing headers/payloads are cut off (what a receiver does with a partial frame is not fixed by the property)."""
+    from harness import ref6455
+    pos = 0
+    upto = 0
+    n = 0
+    while len(raw) - pos >= 2:
+        b0, b1 = raw[pos], raw[pos + 1]
+        fin, rsv, op = bool(b0 & 0x80), (b0 >> 4) & 7, b0 & 15
+        masked, l7 = bool(b1 & 0x80), b1 & 0x7F
+        ext = 2 if l7 == 126 else (8 if l7 == 127 else 0)
+        form = 126 if l7 == 126 else (127 if l7 == 127 else 7)
+        hl = 2 + ext + (4 if masked else 0)
+        if len(raw) - pos < hl:
+            break
+        length = l7 if not ext else int.from_bytes(raw[pos + 2:pos + 2 + ext], "big")
+        if model._header(fin, rsv, op, masked, length, form):
+            model.frame(fin, rsv, op, masked, length, b"", form)
+            upto = pos + hl
+            n += 1
+            break
+        if len(raw) - pos - hl < length:
+            break
+        payload = raw[pos + hl:pos + hl + length]
+        if masked:
+            payload = ref6455.xor_mask(payload, raw[pos + hl - 4:pos + hl])
+        cont = model.frame(fin, rsv, op, masked, length, payload, form)
+        pos += hl + length
+        upto = pos
+        n += 1
+        if not cont:
+            break
+    return upto, n
+
+
+def fuzz_stream_one(col, data):
+    from harness import ref6455
+    if len(data) < 3:
+        return
+    sel = data[0]
+    server, fbd, sched = bool(sel & 1), bool(sel & 2), ("bytes" if sel & 4 else "one")
+    raw = data[1:]
+    model = ref6455.Receiver(server, compression=False, utf8=True)
+    upto, nframes = walk_raw(raw, model)
+    stream = raw[:upto]
+    case = {"check": "fuzz-stream", "server": server, "fbd": fbd, "schedule": sched, "stream": stream}
+    first = None
+    for schedule in ("one", sched) if sched != "one" else ("one",):
+        rx = Rx(server, False, fbd, {"utf8validateIncoming": True})
+        try:
+            if schedule == "one":
+                rx.feed(stream)
+            else:
+                for i in range(len(stream)):
+                    rx.feed(stream[i:i + 1])
+        except (Violation, HarnessError):
+            raise
+        except Exception as e:
+            raise Violation("C02|fuzz|exception|" + exc_key(e), "schedule %s: %r" % (schedule, e), case)
+        obs = rx.finish()
+        judge(model, None, obs, "C02|fuzz", dict(case, schedule=schedule), fbd, server)
+        summary = (obs["events"], [(f.opcode, f.payload[:2] if f.opcode == 8 else f.payload) for f in obs["frames"]], None if model.verdict else obs["dropped"])
+        if first is None:
+            first = summary
+        elif summary != first:
+            raise Violation("C02|fuzz|schedule-dependent-verdict", "byte-wise delivery differs from one-read delivery", case)
+    kind = ("violation:" + model.verdict[1].split(" ")[0]) if model.verdict else ("closed" if model.closed_by_peer else "valid")
+    col.case(nframes >= 1 and (model.verdict is not None or nframes >= 2), dig=[server, fbd, stream], cls=["fuzz-stream/" + kind, "fuzz-stream/frames:%d" % min(nframes, 4)],
+             sample={"server": server, "fbd": fbd, "stream": stream[:40], "frames": nframes, "verdict": model.verdict})
+
+
+def _fuzz_stream_make(col):
+    return lambda data: fuzz_stream_one(col, data)
+
+
+def _fuzz_stream_seeds():
+    from harness import ref6455
+    mk = b"\x01\x02\x03\x04"
+    out = []
+    for sel in range(8):
+        m = mk if sel & 1 else None
+        out.append(bytes([sel]) + ref6455.encode_frame(1, "héllo".encode(), mask=m) + ref6455.encode_frame(9, b"pi", mask=m) + ref6455.encode_frame(2, b"\x00" * 130, mask=m))
+        out.append(bytes([sel]) + ref6455.encode_frame(1, b"\xe2\x82", fin=False, mask=m) + ref6455.encode_frame(10, b"", mask=m) + ref6455.encode_frame(0, b"\xac", mask=m)
+                   + ref6455.encode_frame(8, b"\x03\xe8bye", mask=m))
+    return out
+
+
+FUZZ = {"stream": {"make": _fuzz_stream_make, "seeds": _fuzz_stream_seeds, "imports": ["autobahn.websocket.protocol", "autobahn.websocket.utf8validator", "autobahn.websocket.xormasker"]}}
+
+
+def fuzz(col, target, runs, seed, max_len=600):
+    from harness import fuzzjob
+    fuzzjob.run(col, "c02_ws_receive", target, runs, seed, max_len)
